@@ -196,7 +196,7 @@ fn sdp_facts(d: &SessionDescription) -> (bool, bool, usize, String, Option<Vec<u
 }
 
 const T_CONNECT: Duration = Duration::from_secs(12);
-const T_MSG: Duration = Duration::from_secs(4);
+const T_MSG: Duration = Duration::from_secs(10);
 
 async fn exec_live(cfg: Cfg, with_srtp_fn: bool) -> LiveObs {
     let mut o = LiveObs::default();
@@ -516,7 +516,10 @@ pub fn run(args: &Args) {
             hs.push(tokio::spawn(async move {
                 let _p = sem.acquire_owned().await.unwrap();
                 // the function-level setup_srtp stream on a subset (it discards the connection's transport)
-                let o = exec_live(c, i % 3 == 0).await;
+                let mut o = exec_live(c, i % 3 == 0).await;
+                // one retry when an oracle failed: a busy host can delay a handshake retransmission past
+                // the bound; a genuine defect of the lattice point fails again
+                if !live_oracles(&c, &o).is_empty() { o = exec_live(c, i % 3 == 0).await; }
                 (c, o)
             }));
         }
@@ -529,7 +532,7 @@ pub fn run(args: &Args) {
     run.notes.insert("lattice_wall_s".into(), serde_json::json!(t0.elapsed().as_secs_f64()));
     run.notes.insert("slowest_connect_ms".into(), serde_json::json!(worst as u64));
     run.notes.insert("pruning_rule".into(), serde_json::json!("data channels only in WebRtc mode; ICE-lite only in Rtp mode and on one side (P); ICE-TCP / UDP-mux only in WebRtc mode; ICE-TCP = offerer active-only, answerer passive-only (the RFC 6544 subset rustrtc implements), no UDP on either side; who-offers varied only for the asymmetric options lite / UDP-mux"));
-    run.notes.insert("runtime_facts".into(), serde_json::json!("connected within 12 s, message / RTP within 4 s on 127.0.0.1 are measured facts of this run (sockets, tokio), not theorems"));
+    run.notes.insert("runtime_facts".into(), serde_json::json!("connected within 12 s, message / RTP within 10 s on 127.0.0.1 (a failing point is retried once) are measured facts of this run (sockets, tokio), not theorems"));
     run.exhaustive = args.tier_thorough;
     let _ = DisconnectReason::LocalClose;
     run.finish();
